@@ -1015,8 +1015,8 @@ package fit
 //@@ C16: a record of a known message adds, for every field number that the profile does not list for that message,
 //@@ the number of times the definition carries it (once, in any sensible definition) to that field's count; nothing
 //@@ else is counted: not for unknown messages, not with the option off, not under other message numbers
-//@   slow unk-fields 90
-//@   slow unk-fields-others 90
+//@   slow unk-fields 240
+//@   slow unk-fields-others 240
 //@   ensures [unk-fields] {C16} err == nil && knownMsg && d.opts.unknownFields ==> (forall n byte :: (!pfound(dm.globalMsgNum, n) ==>
 //@  |   d.unknownFields[unknownField{dm.globalMsgNum, n}] == old(d.unknownFields[unknownField{dm.globalMsgNum, n}])+fcount(dm.fieldDefs, len(dm.fieldDefs), n)))
 //@   ensures [unk-fields-listed] {C16} forall n byte :: (pfound(dm.globalMsgNum, n) || !knownMsg || !d.opts.unknownFields ==> d.unknownFields[unknownField{dm.globalMsgNum, n}] == old(d.unknownFields[unknownField{dm.globalMsgNum, n}]))
